@@ -40,7 +40,7 @@ def run(ctx, replay=None):
             ctx.broken.append(('obligation:build-asan', msg))
         else:
             if quick:
-                sel = [h for h in H if str(h.target).startswith(('putself', 'removeself'))] + H[::25] + inj[::10]
+                sel = [h for h in H if str(h.target).startswith(('putself', 'removeself', 'addself')) or 'walk-remove-walk' in h.label] + H[::25] + inj[::10]
             else:
                 sel = H + inj[::2]
             res, found = run_asan(ctx, exa, sel, 'C11')
